@@ -64,7 +64,7 @@ static void body(void) {
 			for (size_t off = 0; off < pl; off++) for (int bit = 0; bit < 8; bit++) { if (!vh_next()) continue; if (vh_deadline_hit()) { vh_capped = 1; continue; } NFA = 1; FA[0] = (fault_t){ F_BIT, base.rec[i].dir, idxof[i], off, bit }; run_exec(p, m, 1); judge(p, m); }
 			for (int k = F_DROP; k < NF; k++) { if (!vh_next()) continue; if (k >= F_TRUNC1 && k <= F_TRUNCALLBUT1 && pl <= 1) continue; NFA = 1; FA[0] = (fault_t){ k, base.rec[i].dir, idxof[i], 0, 0 }; POSTHS = (idxof[i] == cnt[base.rec[i].dir] - 1) && (k == F_DUP || k >= F_INJ_COPY0); run_exec(p, m, 1); judge(p, m); POSTHS = 0; } }
 		/* thorough: all pairs of record-level faults */
-		if (vh_thorough) for (int i = 0; i < nrec; i++) for (int k1 = F_DROP; k1 <= F_SWAP; k1++) for (int j = i; j < nrec; j++) for (int k2 = F_DROP; k2 < NF; k2++) { if (j == i && k2 <= k1) continue; /* two faults on one record that cancel out (drop + re-insert the same bytes) or collapse into one single fault leave the stream untouched or repeat a single-fault case: not a pair */ if (j == i && k1 == F_DROP && (k2 == F_DUP || k2 == F_INJ_SELF || (k2 == F_INJ_COPY0 && idxof[i] == 0))) continue; if (!vh_next()) continue; if (vh_deadline_hit()) { vh_capped = 1; continue; } if (k2 >= F_TRUNC1 && k2 <= F_TRUNCALLBUT1 && base.rec[j].len - 5 <= 1) continue; NFA = 2; FA[0] = (fault_t){ k1, base.rec[i].dir, idxof[i], 0, 0 }; FA[1] = (fault_t){ k2, base.rec[j].dir, idxof[j], 0, 0 }; POSTHS = ((idxof[i] == cnt[base.rec[i].dir] - 1) && k1 == F_DUP) && ((idxof[j] == cnt[base.rec[j].dir] - 1) && (k2 == F_DUP || k2 >= F_INJ_COPY0)); run_exec(p, m, 1); judge(p, m); POSTHS = 0; }
+		if (vh_thorough) for (int i = 0; i < nrec; i++) for (int k1 = F_DROP; k1 <= F_SWAP; k1++) for (int j = i; j < nrec; j++) for (int k2 = F_DROP; k2 < NF; k2++) { if (j == i && k2 <= k1) continue; /* two faults on one record that cancel out (drop + re-insert the same bytes) or collapse into one single fault leave the stream untouched or repeat a single-fault case: not a pair */ if (j == i && k1 == F_DROP && (k2 == F_DUP || k2 == F_INJ_SELF || (k2 == F_INJ_COPY0 && idxof[i] == 0) || (k2 == F_INJ_CCS && base.rec[i].type == 20 && base.rec[i].len == 6))) continue; /* dropping the (plaintext) ChangeCipherSpec and injecting a ChangeCipherSpec puts the same six octets back */ if (!vh_next()) continue; if (vh_deadline_hit()) { vh_capped = 1; continue; } if (k2 >= F_TRUNC1 && k2 <= F_TRUNCALLBUT1 && base.rec[j].len - 5 <= 1) continue; NFA = 2; FA[0] = (fault_t){ k1, base.rec[i].dir, idxof[i], 0, 0 }; FA[1] = (fault_t){ k2, base.rec[j].dir, idxof[j], 0, 0 }; POSTHS = ((idxof[i] == cnt[base.rec[i].dir] - 1) && k1 == F_DUP) && ((idxof[j] == cnt[base.rec[j].dir] - 1) && (k2 == F_DUP || k2 >= F_INJ_COPY0)); run_exec(p, m, 1); judge(p, m); POSTHS = 0; }
 	}
 	printf("STAT executions=%llu outcome_neither=%llu outcome_client_only=%llu outcome_server_only=%llu outcome_both=%llu\n", (unsigned long long)vh_evals, (unsigned long long)(OUTCOMES[0] + OUTCOMES[4]), (unsigned long long)(OUTCOMES[1] + OUTCOMES[5]), (unsigned long long)(OUTCOMES[2] + OUTCOMES[6]), (unsigned long long)(OUTCOMES[3] + OUTCOMES[7]));
 }
